@@ -461,6 +461,21 @@ PROPS["C08"].streams.append(Stream("dec1-reenter", "dec1", lambda ctx: streamgen
 PROPS["C09"].streams.append(Stream("frag-reenter", "frag", streamgen.frag_cases, flavours=("rel",), env={"HX_REENTER": "1"},
                                    nontrivial=lambda c, l: " " in c and not l.startswith("- "),
                                    rule="the fragment deliveries with callbacks that re-enter the streaming decoder on another buffer: the client must receive the same events and waits"))
+# counts beyond 32 bits in the decoder's bookkeeping (the number of items a definite map still expects = 2 x pairs): a map
+# declaring 2^31 + k pairs followed by a few members must leave the decoder waiting (closed form from C02_machine_is_spec: the
+# input is a proper prefix, so NOTENOUGHDATA at its end); the 32 GiB of pair storage are an untouched MAP_NORESERVE mapping
+def hugecount_cases(ctx):
+    out = []
+    for k in (1, 2, 3):
+        for members in (2 * k, 2 * k + 1, 2 * k + 2):
+            out.append("ba" + "%08x" % (2 ** 31 + k) + "01" * members)
+            out.append("bb" + "%016x" % (2 ** 31 + k) + "01" * members)
+    return out
+hugecount = lambda: Stream("hugecount", "hugecount", hugecount_cases, flavours=("rel",), tiers=("thorough", "search"), timeout=900,
+                           expect=lambda c: "err NOTENOUGHDATA %d %d" % (len(c) // 2, len(c) // 2), nontrivial=lambda c, l: True,
+                           rule="definite maps declaring 2^31+k pairs (4- and 8-byte count) followed by 2k..2k+2 one-byte items, storage served by an untouched 32 GiB MAP_NORESERVE mapping (thorough tier and failing-input search only): the decoder must report NOTENOUGHDATA at the end of the input, not an item")
+PROPS["C20"].streams.append(hugecount())
+PROPS["C02"].streams.append(hugecount())
 PROPS["C20"].streams.append(Stream("sizes", "sizes", treegen.sizes_cases, flavours=("rel", "dbg"), spec="sizes_spec", nontrivial=lambda c, l: l != "size=0" or "18446" in c,
                                    rule="cbor_serialized_size on trees whose definite strings carry DECLARED lengths near 2^61..2^64 (length metadata forged as in the library's own overflow tests): sums that fit, wrap exactly and wrap by one, in arrays, maps (key+value subtotal), chunk lists and tags; the spec line is the exact unbounded total or 0"))
 
